@@ -109,8 +109,8 @@ Section Fixed.
 End Fixed.
 
 (** ** the two repaired defects, kept as witnesses: the code before each repair violates the property *)
-Definition before_fix1 : mode := {| fix1 := false; fix7 := true; memo := true; fixd := true |}.
-Definition before_fix7 : mode := {| fix1 := true; fix7 := false; memo := true; fixd := true |}.
+Definition before_fix1 : mode := {| fix1 := false; fix7 := true; memo := true; fixd := true; fullkey := true |}.
+Definition before_fix7 : mode := {| fix1 := true; fix7 := false; memo := true; fixd := true; fullkey := true |}.
 
 Definition w_Q : name := [81]%N.
 Definition w_Int : name := [73; 110; 116]%N.
@@ -173,8 +173,8 @@ Definition w_W_l : outcome :=
 
 (** before the repair (every traversal reports): one error with the cache, two without; after it:
     one, with and without *)
-Definition before_fixd : mode := {| fix1 := true; fix7 := true; memo := true; fixd := false |}.
-Definition before_fixd_nomemo : mode := {| fix1 := true; fix7 := true; memo := false; fixd := false |}.
+Definition before_fixd : mode := {| fix1 := true; fix7 := true; memo := true; fixd := false; fullkey := true |}.
+Definition before_fixd_nomemo : mode := {| fix1 := true; fix7 := true; memo := false; fixd := false; fullkey := true |}.
 
 Theorem collect_cache_transparent_refuted_before_fixd :
   exists S D E fuel W,
@@ -186,4 +186,48 @@ Proof.
   repeat split; try (vm_compute; reflexivity).
   exists (Some (JObj [(w_l, JArr [JObj []; JObj []])])), {| e_path := []; e_locs := [{| line := 1; col := 9 |}] |}.
   vm_compute. repeat split; reflexivity.
+Qed.
+
+(** ** a memo key that keeps only (type, first selection, number of selections) is NOT transparent.
+    { p: o { ...F o { s } }  q: o { ...F o { sn } } }   fragment F on O { o { __typename } }
+    The node o of F merges with o{s} under p and with o{sn} under q: the merged sub-selection lists
+    [__typename@F; s] and [__typename@F; sn] have the same type O, the same first node and the
+    same length, so q.o is executed with the grouped field set cached for p.o. *)
+Definition coarse_memo : mode := {| fix1 := true; fix7 := true; memo := true; fixd := true; fullkey := false |}.
+Definition w_o : name := [111]%N.
+Definition w_p : name := [112]%N.
+Definition w_q : name := [113]%N.
+Definition w_sn : name := [115; 110]%N.
+Definition w_F : name := [70]%N.
+Definition w_schema_k : schema :=
+  {| types := [(w_Int, NScalar KInt);
+               (w_Q, NObject [(w_o, StNamed w_O)] []);
+               (w_O, NObject [(w_o, StNamed w_O); (w_s, StNamed w_Int); (w_sn, StNamed w_Int)] [])];
+     query := w_Q; mutation := None; subscription := None; s_inputs := []; s_argdefs := [] |}.
+Definition w_at (l c : N) : pos := {| line := l; col := c |}.
+Definition w_doc_k : document :=
+  {| op_kind := OpQuery; op_pos := w_at 1 1;
+     op_sels := [ SField (Some w_p) w_o (w_at 1 2) []
+                    [SSpread w_F (w_at 1 8) []; SField None w_o (w_at 1 13) [] [SField None w_s (w_at 1 16) [] []]];
+                  SField (Some w_q) w_o (w_at 1 20) []
+                    [SSpread w_F (w_at 1 26) []; SField None w_o (w_at 1 31) [] [SField None w_sn (w_at 1 34) [] []]] ];
+     frags := [ {| fr_name := w_F; fr_cond := w_O;
+                   fr_sels := [SField None w_o (w_at 2 17) [] [SField None n_typename (w_at 2 20) [] []]] |} ];
+     d_args := []; d_vars := [] |}.
+Definition w_W_k : outcome :=
+  OObj w_Q [(w_o, OObj w_O [(w_o, OObj w_O [(w_s, OLeaf (GInt IInt 1)); (w_sn, OLeaf (GInt IInt 2))])])].
+
+Theorem collect_cache_transparent_refuted_coarse_key :
+  exists S D E fuel n W,
+    type_names_okb S = true /\ doc_positions_okb D = true /\ doc_ok S D E fuel n = true /\
+    run coarse_memo S D E fuel W <> run fixed_nomemo S D E fuel W /\
+    run fixed S D E fuel W = run fixed_nomemo S D E fuel W /\
+    (* the two merged lists: different selections, same coarse key, different full key *)
+    exists ot l1 l2, l1 <> l2 /\ coarse_key ot l1 = coarse_key ot l2 /\ cache_key ot l1 <> cache_key ot l2.
+Proof.
+  exists w_schema_k, w_doc_k, [], 4%nat, 4%nat, w_W_k.
+  repeat split; try (vm_compute; reflexivity); try (vm_compute; discriminate).
+  exists w_O, [SField None n_typename (w_at 2 20) [] []; SField None w_s (w_at 1 16) [] []],
+         [SField None n_typename (w_at 2 20) [] []; SField None w_sn (w_at 1 34) [] []].
+  repeat split; try (vm_compute; reflexivity); try (vm_compute; discriminate); discriminate.
 Qed.
